@@ -715,3 +715,15 @@ def exit_points_plain():
 
 ALL["kleene_defer"] = kleene_defer
 ALL["exit_points_plain"] = exit_points_plain
+
+
+def defer_queue_first():
+    """deferring states with the back / back11 option event_queue_before_deferred_queue: what a replayed deferred event
+    submits must still be drained (third seeded defect C04)"""
+    sp = defer_basic()
+    sp["name"] = "defer_queue_first"
+    sp["machines"][0]["queue_first"] = True
+    return sp
+
+
+ALL["defer_queue_first"] = defer_queue_first
